@@ -32,7 +32,7 @@ w("\n### 10.7 Breaks written by independent sub-agents (`seeded/<id>/`)\n")
 w("Each sub-agent got only the text of one property, the working rules and a scratch worktree (`tools/seed_round.py` writes the prompts; "
   "from round 2 on a paragraph of guidance steered the agents away from what earlier rounds had done - rounds 2-6 also listed, one line each, "
   "what earlier agents had planted for the same property, taken from those agents' own reports; nothing about the checks was ever given; "
-  "round letters: a-b round 1 ... k-l round 6, m-n round 7, o-p round 8, q-r round 9, s-t round 10, u-v round 11 (ordinary slips), w-x round 12 (time-shifted effects), y-z round 13 (changes outside the anchored functions), za-zb round 14 (structural / control-flow refactors), zc-zd round 15 (cross-feature coupling); rounds 7+ were given no list of earlier plants). Every break below was confirmed by me in scratch "
+  "round letters: a-b round 1 ... k-l round 6, m-n round 7, o-p round 8, q-r round 9, s-t round 10, u-v round 11 (ordinary slips), w-x round 12 (time-shifted effects), y-z round 13 (changes outside the anchored functions), za-zb round 14 (structural / control-flow refactors), zc-zd round 15 (cross-feature coupling), ze-zf round 16 (no theme: the agents were told a monitoring harness exists and asked to evade it); rounds 7+ were given no list of earlier plants). Every break below was confirmed by me in scratch "
   "copies (patch applies, same tests pass as on a clean copy, demo exits 0 without / non-zero with the patch) with "
   "`tools/seed_verify.py`, which also ran the checks against the patched copy.\n")
 w("| seeded id | breaks | what it needs to manifest | caught by | mechanisms reported |")
